@@ -1,4 +1,4 @@
 From Coq Require Import Extraction ExtrOcamlBasic ExtrOcamlString.
 From Oras Require Import Model.GraphMem Model.GraphStore Model.Links.
 Extraction Language OCaml.
-Extraction "xc07.ml" run init_state predecessors_raw exists_node load ostep empty_store ctab successors_of.
+Extraction "xc07.ml" run init_state predecessors_raw exists_node load ostep empty_store astep empty_astore ntrans1 ctab successors_of.
